@@ -136,14 +136,23 @@ theorem C12_agenttype_records_by_step (cfg : Cfg) (hT : Total cfg) (tables : Lis
 /-- What one collect writes for an agent-type key `T` (all keys being Agent classes, keys distinct as in a
     dict, no agent-type reporter raising on the agents it is applied to): one row per agent of class `T` — `T` a
     concrete class without subclassed instances, or a base class without direct instances (C12's quantifier) —
-    with `T`'s reporters evaluated on that agent. -/
+    with `T`'s reporters evaluated on that agent.  Row order: a class with direct instances is read from
+    `agents_by_type[T]`, whose order no reordering of `model.agents` touches — its rows come in creation order
+    (ascending `unique_id`); a base class without direct instances is filtered out of `model.agents` — its rows
+    follow the current order of `model.agents`.  While `model.agents` is in creation order (`IdSorted`: always,
+    unless it was reordered in place, see `C12_creation_order_without_reorder`) the two coincide. -/
 theorem C12_agenttype_rows_are_class_members (cfg : Cfg) (sn : Snap) (T : Nat) (reps : List ARep)
     (hT : cfg.treps.lookup T = some reps) (hnd : (cfg.treps.map (·.1)).Nodup)
     (hcls : ∀ x ∈ cfg.treps, cfg.isAgentClass x.1 = true) (hrefl : ∀ c, cfg.isSub c c = true)
     (hnr : ∀ x ∈ cfg.treps, ∀ r ∈ x.2, ∀ ag ∈ sn.agents, r.exc sn ag = none)
     (hq : (∀ a ∈ sn.agents, cfg.isSub a.ty T = true → a.ty = T) ∨ (∀ a ∈ sn.agents, a.ty ≠ T)) :
+    let members := sn.agents.filter fun a => cfg.isSub a.ty T
+    let direct := sn.agents.any fun a => a.ty == T
     (typeDict cfg sn).lookup T =
-      some ((sn.agents.filter fun a => cfg.isSub a.ty T).map (mkRow reps sn)) := by
+      some ((if direct then byCreation members else members).map (mkRow reps sn)) ∧
+    (byCreation members).Perm members ∧ (byCreation members).Pairwise (fun a b => a.id ≤ b.id) ∧
+    (IdSorted sn.agents → (typeDict cfg sn).lookup T = some (members.map (mkRow reps sn))) := by
+  intro members direct
   have hk : ∀ x ∈ cfg.treps, KeyOk cfg sn x := by
     intro x hx
     have hsub : ∀ ags, classAgents cfg sn x.1 = some ags → rowsExc x.2 sn ags = none := by
@@ -153,7 +162,7 @@ theorem C12_agenttype_rows_are_class_members (cfg : Cfg) (sn : Snap) (T : Nat) (
       refine hnr x hx r hr ag ?_
       unfold classAgents at hags
       split at hags
-      · cases hags; exact (List.mem_filter.mp hag).1
+      · cases hags; exact (List.mem_filter.mp ((byCreation_perm _).mem_iff.mp hag)).1
       · split at hags
         · cases hags; exact (List.mem_filter.mp hag).1
         · cases hags
@@ -166,8 +175,35 @@ theorem C12_agenttype_rows_are_class_members (cfg : Cfg) (sn : Snap) (T : Nat) (
       · simp [hcls x hx] at hc
     | some ags => exact ⟨ags, rfl, hsub ags hc⟩
   have hA : cfg.isAgentClass T = true := hcls (T, reps) (mem_of_lookup hT)
-  rw [typeDict, typeLoopS_lookup cfg sn cfg.treps [] hk hnd T reps hT, classAgents_members cfg sn T hA hrefl hq]
-  rfl
+  have hmain : (typeDict cfg sn).lookup T =
+      some ((if direct then byCreation members else members).map (mkRow reps sn)) := by
+    rw [typeDict, typeLoopS_lookup cfg sn cfg.treps [] hk hnd T reps hT, classAgents_members cfg sn T hA hrefl hq]
+    rfl
+  refine ⟨hmain, byCreation_perm _, byCreation_sorted _, ?_⟩
+  intro hs
+  rw [hmain, byCreation_of_idSorted (hs.filter _)]
+  cases direct <;> rfl
+
+/-- An in-place reordering of `model.agents` (`shuffle(inplace=True)`, `sort(…, inplace=True)`) rearranges the
+    registry and touches nothing else: what the DataCollector holds, the step counter, the attributes are as
+    before; the registered agents are the same agents. -/
+theorem C12_reorder_only_permutes_agents (cfg : Cfg) (s : State) (k : ReKind) :
+    (apply cfg s (.reorder k)).1 = { s with agents := reorderList k s.agents } ∧
+    (apply cfg s (.reorder k)).2 = none ∧ (reorderList k s.agents).Perm s.agents := ⟨rfl, rfl, reorderList_perm k s.agents⟩
+
+/-- `model.agents` is in creation order (strictly ascending `unique_id`) after every history that does not
+    reorder it in place; after any history at all the ids are distinct and below the next id to be handed out.
+    With `C12_collect_records_registered_agents` (rows in the order of `model.agents` at the collect, whatever that
+    order is) this is the row-order clause: creation order unless the user reordered the registry, then that order. -/
+theorem C12_creation_order_without_reorder (cfg : Cfg) (tables : List (Nat × List Nat)) (ops : List Op) :
+    ((run cfg (init cfg tables) ops).agents.map (·.id)).Nodup ∧
+    (∀ a ∈ (run cfg (init cfg tables) ops).agents, a.id < (run cfg (init cfg tables) ops).nextId) ∧
+    ((∀ op ∈ ops, noReorder op = true) → IdSorted (run cfg (init cfg tables) ops).agents) := by
+  have h0 : IdsInv (init cfg tables) := ⟨by simp [init], by simp [init]⟩
+  have h := run_idsInv cfg _ ops h0
+  refine ⟨h.1, h.2, fun hops => run_idSorted cfg _ ops hops ⟨?_, ?_⟩⟩
+  · simp [init, IdSorted]
+  · simp [init]
 
 /-- Table rows are appended column-aligned: over every history every column of every table holds exactly
     the cells of the rows `add_table_row` accepted for that table, in order (`None` for a key missing
@@ -376,6 +412,32 @@ example : (storedSnaps rxCfg (init rxCfg []) rxOps).map (fun sn => (mOk rxCfg sn
     [(false, false), (true, false), (true, true)] := by decide
 /-! a plain function that raises at the trial call of the first collect: RuntimeError, nothing stored -/
 example : (collect { rxCfg with mreps := [.fn (needM 0), .attr 5] } (init rxCfg [])).2 = some .runtime := by decide
+/-! `model.agents` reversed in place between creation and collect (classes 1 and 2 derive from 0; keys: class 1 with
+    direct instances, base class 0 without): the agent rows and the rows of the base-class key follow the new order
+    of `model.agents`, the rows of class 1 stay in creation order (`agents_by_type[1]`) -/
+def roCfg : Cfg :=
+  { mreps := [], areps := [.attr 0], treps := [(1, [.attr 0]), (0, [.attr 0])],
+    isAgentClass := fun T => T < 3, isSub := fun c T => c == T || T == 0 }
+def roOps : List Op :=
+  [.create 1 [(0, .int 7)], .create 2 [(0, .int 5)], .create 1 [(0, .int 6)], .reorder .rev, .collect, .step,
+   .reorder (.byAttr 0 true), .create 2 [], .collect]
+def roEnd : State := run roCfg (init roCfg []) roOps
+example : roEnd.agents.map (·.id) = [2, 3, 1, 4] := by decide
+example : roEnd.records.map (fun x => (x.1, x.2.map (·.id))) = [(0, [3, 2, 1]), (1, [2, 3, 1, 4])] := by decide
+example : roEnd.typeRecords.map (fun x => (x.1, x.2.map fun y => (y.1, y.2.map (·.id)))) =
+    [(0, [(1, [1, 3]), (0, [3, 2, 1])]), (1, [(1, [1, 3]), (0, [2, 3, 1, 4])])] := by decide
+example : ¬ IdSorted roEnd.agents := by unfold IdSorted; decide
+/-! multiple inheritance (`isSub` is any relation): class 2 derives from the unrelated classes 0 and 1.  Second example:
+    neither base has a direct instance — the agents of class 2 are reported under both keys, in the order of
+    `model.agents`.  First example: class 1 has a direct instance, so key 1 is read from `agents_by_type[1]` and does not
+    list the class-2 agent (a key with direct and subclassed instances: outside C12's quantifier) -/
+def miCfg : Cfg :=
+  { mreps := [], areps := [], treps := [(0, [.attr 0]), (1, [.attr 0])],
+    isAgentClass := fun T => T < 3, isSub := fun c T => c == T || (c == 2 && T < 2) }
+example : (run miCfg (init miCfg []) [.create 2 [(0, .int 4)], .create 1 [(0, .int 8)], .collect]).typeRecords.map
+    (fun x => x.2.map fun y => (y.1, y.2.map (·.id))) = [[(0, [1]), (1, [2])]] := by decide
+example : (run miCfg (init miCfg []) [.create 2 [(0, .int 4)], .create 2 [], .reorder .rot, .collect]).typeRecords.map
+    (fun x => x.2.map fun y => (y.1, y.2.map (·.id))) = [[(0, [2, 1]), (1, [2, 1])]] := by decide
 end Example
 
 end Mesa.Collect
